@@ -12,7 +12,7 @@ func (g *Gen) Idiom() *Program {
 		x, y = "y", "x"
 	}
 	k := int64(1 + g.R.Intn(3))
-	switch g.R.Intn(36) {
+	switch g.R.Intn(46) {
 	case 0:
 		// the caller has a local of the same name as the callee's free variable
 		return &Program{Forms: []*Node{
@@ -201,6 +201,50 @@ func (g *Gen) Idiom() *Program {
 			For("", Def("i", Int(0)), CallN("<", Var("i"), Int(k+1)), Set("i", CallN("+", Var("i"), Int(1))),
 				Set("r", CallN("append", Var("r"), CallN("fill", Arr(Str("a"), Int(0)), Var("i"))))),
 			Var("r")}}
+	case 26:
+		// the same fn form evaluated several times in ONE activation (or at top level), each time under a
+		// fresh let / newScope block: every closure must keep the block variables of its own iteration
+		mk := func(body ...*Node) *Node {
+			return For("", Def("i", Int(0)), CallN("<", Var("i"), Int(k+1)), Set("i", CallN("+", Var("i"), Int(1))), body...)
+		}
+		var loop *Node
+		switch g.R.Intn(3) {
+		case 0:
+			loop = mk(Let(false, []string{x}, []*Node{Var("i")}, Def("g", Fn(nil, "", Var(x))), Set("a", CallN("append", Var("a"), Var("g")))))
+		case 1:
+			loop = mk(Scope(Def(x, CallN("*", Var("i"), Int(10))), Set("a", CallN("append", Var("a"), Fn(nil, "", Set(x, CallN("+", Var(x), Int(1))))))))
+		default:
+			loop = mk(Let(true, []string{x, y}, []*Node{Var("i"), CallN("+", Var(x), Int(1))},
+				Defn("g", nil, "", CallN("list", Var(x), Var(y))), Set("a", CallN("append", Var("a"), Var("g")))))
+		}
+		call := CallN("map", Fn([]string{"h"}, "", CallN("h")), Var("a"))
+		if g.R.Bool() {
+			return &Program{Forms: []*Node{Def("a", Arr()), loop, call, call}}
+		}
+		return &Program{Forms: []*Node{Defn("f", nil, "", Def("a", Arr()), loop, call), CallN("f"), CallN("f")}}
+	case 27:
+		// inside a function: a closure created while its enclosing block has no binding yet, the block then
+		// binds the name the closure uses (newScope first statement / parallel let initialiser / let-bound
+		// self-recursive helper); an outer variable of the same name must not be seen instead
+		switch g.R.Intn(4) {
+		case 0:
+			return &Program{Forms: []*Node{Def(x, Int(100)),
+				Defn("f", nil, "", Scope(Def("g", Fn(nil, "", Var(x))), Def(x, Int(k)), CallN("g"))), CallN("f")}}
+		case 1:
+			return &Program{Forms: []*Node{Def(x, Int(100)),
+				Defn("f", []string{y}, "", Let(false, []string{"h", x}, []*Node{Fn(nil, "", CallN("+", Var(x), Var(y))), Int(k)}, CallN("h"))),
+				CallN("f", Int(1))}}
+		case 2:
+			return &Program{Forms: []*Node{
+				Defn("f", []string{"n"}, "", Let(false, []string{"h"}, []*Node{
+					Fn([]string{"k"}, "", Cond(CallN("<=", Var("k"), Int(0)), Int(0), CallN("+", Int(1), CallN("h", CallN("-", Var("k"), Int(1))))))},
+					CallN("h", Var("n")))),
+				CallN("f", Int(k))}}
+		}
+		return &Program{Forms: []*Node{Def(y, Int(100)),
+			Defn("f", nil, "", For("", Fn(nil, "", Var(y)), CallN("<", Int(1), Int(0)), Int(0)),
+				Let(false, nil, nil, Def("g", Fn(nil, "", Set(y, Int(k)))), CallN("g"), Def(y, Int(7)), CallN("list", CallN("g"), Var(y)))),
+			CallN("f"), Var(y)}}
 	case 22:
 		// tail recursion creating a closure per iteration, used after later iterations
 		return &Program{Forms: []*Node{Def("a", Arr()),
